@@ -437,6 +437,12 @@ impl World {
           if current.count_change() > 0 {
             p.w_matched = true;
           } else if current.count_change() < 0 {
+            if p.known && p.owes_dispose.is_none() && p.losses == 0 {
+              return Err(v(
+                "C12/endpoints-of-live-participant-unmatched",
+                format!("the writer of {}, which is known and was never lost, was unmatched from A's reader", p.name),
+              ));
+            }
             p.w_matched = false;
           }
         }
@@ -451,6 +457,12 @@ impl World {
           if current.count_change() > 0 {
             p.r_matched = true;
           } else if current.count_change() < 0 {
+            if p.known && p.owes_dispose.is_none() && p.losses == 0 {
+              return Err(v(
+                "C12/endpoints-of-live-participant-unmatched",
+                format!("the reader of {}, which is known and was never lost, was unmatched from A's writer", p.name),
+              ));
+            }
             p.r_matched = false;
           }
         }
@@ -584,10 +596,17 @@ fn body() -> Check {
 
   let steps = 3 + ch(|c| c.draw(12));
   let mut ops = String::new();
+  // in half of the runs the participant that stays alive has endpoints too: they must stay matched
+  let c_has_endpoints = ch(|c| c.flag());
   for _ in 0..steps {
     let l_ns = w.peers[0].lease_ns.unwrap_or(10 * SEC);
     if simcore::now_ns() < w.last_action + 3 * MS {
       w.pass(3 * MS)?;
+    }
+    if c_has_endpoints && w.peers[1].known && !w.peers[1].sedp_announced {
+      w.peers[1].sedp_announce(&q);
+      w.last_action = simcore::now_ns();
+      w.pass(20 * MS)?;
     }
     let known = w.peers[0].known;
     let can_sedp = known && !w.peers[0].sedp_announced;
